@@ -74,6 +74,7 @@ type SpentRecord struct {
 type UTXOLedger struct {
 	live    map[types.OutPoint]Entry
 	Spent   []SpentRecord // outputs consumed by accepted transactions of the current block
+	Gone    []SpentRecord // outputs consumed by earlier blocks of the same history
 	Created []Item        // outputs created by accepted transactions of the current block (may be spent again)
 }
 
@@ -86,12 +87,27 @@ func (l *UTXOLedger) Clone() *UTXOLedger {
 		c.live[k] = v
 	}
 	c.Spent = append(c.Spent, l.Spent...)
+	c.Gone = append(c.Gone, l.Gone...)
 	c.Created = append(c.Created, l.Created...)
 	return c
 }
 
-// BeginBlock forgets the per-block bookkeeping.
-func (l *UTXOLedger) BeginBlock() { l.Spent, l.Created = nil, nil }
+// BeginBlock closes the previous block: what it spent becomes "spent in an earlier block" and
+// the per-block bookkeeping starts empty.
+func (l *UTXOLedger) BeginBlock() {
+	l.Gone = append(l.Gone, l.Spent...)
+	l.Spent, l.Created = nil, nil
+}
+
+// SpentEarlier reports whether op was consumed by an earlier block of the history.
+func (l *UTXOLedger) SpentEarlier(op types.OutPoint) bool {
+	for _, s := range l.Gone {
+		if s.OutPoint == op {
+			return true
+		}
+	}
+	return false
+}
 
 func (l *UTXOLedger) Add(op types.OutPoint, e Entry) { l.live[op] = e }
 func (l *UTXOLedger) Get(op types.OutPoint) (Entry, bool) {
@@ -138,16 +154,17 @@ func (l *UTXOLedger) Items() []Item {
 // Reasons for which the model forbids a transaction (the property's safety half). Anything not
 // listed here is implementation policy: the model has no opinion on it.
 const (
-	RNoSuchOutput = "unknown-outpoint"  // never existed / not live and not spent in this block
-	RSpentInBlock = "spent-in-block"    // consumed by an earlier accepted transaction of this block
-	RDupInTx      = "dup-in-tx"         // named by an earlier input of the same transaction
-	RNotOwner     = "non-owner-key"     // address of the supplied public key differs from the owner address
-	RLocked       = "locked"            // lock height above the block height
-	RBadDenomIn   = "bad-denom-input"   // entry without a defined value
-	RBadDenomOut  = "bad-denom-output"  // output without a defined value
-	ROverspend    = "value-created"     // outputs worth more than inputs
-	RBadSignature = "bad-signature"     // signature check requested and the signature is not by the listed keys
-	RBadPubKey    = "malformed-pubkey"  // public key that has no owner address
+	RNoSuchOutput = "unknown-outpoint"       // never existed / not live and not spent in this block
+	RSpentInBlock = "spent-in-block"         // consumed by an earlier accepted transaction of this block
+	RSpentEarlier = "spent-in-earlier-block" // consumed by an earlier block
+	RDupInTx      = "dup-in-tx"              // named by an earlier input of the same transaction
+	RNotOwner     = "non-owner-key"          // address of the supplied public key differs from the owner address
+	RLocked       = "locked"                 // lock height above the block height
+	RBadDenomIn   = "bad-denom-input"        // entry without a defined value
+	RBadDenomOut  = "bad-denom-output"       // output without a defined value
+	ROverspend    = "value-created"          // outputs worth more than inputs
+	RBadSignature = "bad-signature"          // signature check requested and the signature is not by the listed keys
+	RBadPubKey    = "malformed-pubkey"       // public key that has no owner address
 )
 
 // OutputClass says where the value of one transaction output goes according to the model.
@@ -213,6 +230,8 @@ func (l *UTXOLedger) Evaluate(tx *types.Transaction, c TxContext) *Effects {
 		if !ok {
 			if l.SpentInBlock(op) {
 				add(RSpentInBlock)
+			} else if l.SpentEarlier(op) {
+				add(RSpentEarlier)
 			} else {
 				add(RNoSuchOutput)
 			}
